@@ -213,6 +213,14 @@ Section SortProofs.
   Corollary sort_perm_invariant_NoDup l1 l2 :
     Permutation l1 l2 -> NoDup (map key l1) -> isort key l1 = isort key l2.
   Proof. intros P ND. apply sort_perm_invariant; [exact P|]. apply NoDup_map_pairwise. exact ND. Qed.
+  (* ... and ONLY then: two different elements with one key come out in the order they went in
+     (sort.Slice is an insertion sort below 12 elements and unstable above: ties keep or lose the
+     arrival order, they never get an order of their own) *)
+  Theorem sort_needs_distinct_keys x y : key x = key y -> x <> y -> isort key [x; y] <> isort key [y; x].
+  Proof.
+    intros E N. unfold isort. cbn. rewrite E. rewrite sle_refl.
+    intros H. inversion H. apply N. symmetry. assumption.
+  Qed.
 End SortProofs.
 
 (* ------------------------------------------------------------------ insertion into a canonical map *)
@@ -346,6 +354,29 @@ Theorem site_generateAPIKeyClients_fixed_deterministic hash l1 l2 :
   site_generateAPIKeyClients_fixed_out hash l1 = site_generateAPIKeyClients_fixed_out hash l2.
 Proof.
   intros P ND. unfold site_generateAPIKeyClients_fixed_out.
+  apply sort_perm_invariant_NoDup; [apply Permutation_map; exact P|].
+  rewrite map_map. cbn. exact ND.
+Qed.
+
+(* a comparator on a normalised id (strings.ToLower ...) is no strict total order on the keys as soon
+   as two keys normalise to the same string: the tie is decided by the iteration order *)
+Theorem site_generateAPIKeyClients_normalised_refuted norm hash (x y : string * string) :
+  norm (fst x) = norm (fst y) -> fst x <> fst y ->
+  site_generateAPIKeyClients_normalised_out norm hash [x; y] <>
+  site_generateAPIKeyClients_normalised_out norm hash [y; x].
+Proof.
+  intros E N. unfold site_generateAPIKeyClients_normalised_out. cbn [map].
+  apply (sort_needs_distinct_keys (fun c : string * string => norm (fst c))).
+  - cbn. exact E.
+  - unfold api_client. intros H. inversion H. contradiction.
+Qed.
+
+(* with an injective normalisation nothing is lost *)
+Theorem site_generateAPIKeyClients_normalised_deterministic norm hash l1 l2 :
+  Permutation l1 l2 -> NoDup (map (fun kv => norm (fst kv)) l1) ->
+  site_generateAPIKeyClients_normalised_out norm hash l1 = site_generateAPIKeyClients_normalised_out norm hash l2.
+Proof.
+  intros P ND. unfold site_generateAPIKeyClients_normalised_out.
   apply sort_perm_invariant_NoDup; [apply Permutation_map; exact P|].
   rewrite map_map. cbn. exact ND.
 Qed.
@@ -685,4 +716,40 @@ Proof.
   - destruct (H r Hin) as [H1 H2]. apply andb_true_iff. split.
     + apply files_eqb_eq. symmetry. exact H1.
     + rewrite H2. reflexivity.
+Qed.
+
+(* ------------------------------------------------------------------ history *)
+
+(* a generator that leaves the mutable part of its inputs alone renders every input as a fresh
+   process would, whatever it rendered before *)
+Theorem run_history_pure {S I O} (step : S -> I -> S * O) :
+  (forall s i, fst (step s i) = s) -> forall h s, run_history step s h = s.
+Proof. intros Hp h. induction h as [|i r IH]; intros s; cbn; [reflexivity|]. rewrite Hp. apply IH. Qed.
+
+Theorem history_independent {S I O} (step : S -> I -> S * O) :
+  (forall s i, fst (step s i) = s) ->
+  forall h s i, snd (step (run_history step s h) i) = snd (step s i).
+Proof. intros Hp h s i. rewrite run_history_pure by exact Hp. reflexivity. Qed.
+
+(* the mergeable-Ingress generator as it stands (deep copy of the minion): the rendering of the last
+   master does not depend on the masters rendered before *)
+Theorem render_history_deepcopy allowed deny masters m minion last :
+  render_history false allowed deny (masters ++ [m]) minion last = effective_minion allowed deny m minion.
+Proof.
+  revert last. induction masters as [|a r IH]; intros last; cbn; [reflexivity|]. apply IH.
+Qed.
+
+(* a generator that edits the stored minion: master 33s, then 44s, renders 33s for ever *)
+Theorem render_history_inplace_refuted :
+  exists allowed deny m1 m2 minion,
+    render_history true allowed deny [m1; m2] minion [] <> render_history true allowed deny [m2] minion [].
+Proof.
+  exists (fun k => String.eqb k "nginx.org/proxy-read-timeout"), (fun _ => false),
+         [("nginx.org/proxy-read-timeout", "33s")], [("nginx.org/proxy-read-timeout", "44s")], [].
+  vm_compute. discriminate.
+Qed.
+
+Theorem history_ok_sound a b n : history_ok a b n = true <-> a = b /\ n = 0.
+Proof.
+  unfold history_ok. rewrite andb_true_iff, files_eqb_eq, Nat.eqb_eq. tauto.
 Qed.
